@@ -20,8 +20,12 @@ FUNCTIONS = ["wannierberri.fourier.fft.FFT_R_to_k.__init__/__call__/transform/ex
 BOUNDS = dict(quick=dict(nb="1..2", R_sets="7 sets of 5..27 R-vectors, all larger than the FFT box (folding), one not inversion-symmetric", NKFFT="(1,1,1) (2,1,2) (2,2,2) (3,1,1) (2,3,1) (4,1,1) (1,1,4)",
                          dK="4 concrete shifts incl. 0 and non-dyadic doubles", der="0..2 (concrete triclinic lattice+centres), 3 and vector-valued der=2 for nb=1 on the box (2,1,1), 1 (symbolic lattice, centres)", data="symbolic complex X(R), |X|<=1",
                          hermitian_flag="both", fftlib="fftw(stub) numpy(stub) slow k-list"),
-              thorough=dict(nb="1..3", R_sets="as quick", NKFFT="as quick + (4,2,2) (3,2,2)", dK="6 concrete shifts", der="0..3 (concrete lattice), 1..2 (symbolic lattice, centres)",
-                            data="symbolic complex X(R), |X|<=1", hermitian_flag="both", fftlib="fftw(stub) numpy(stub) slow k-list"))
+              thorough=dict(nb="1..4", R_sets="13 sets of 5..125 R-vectors incl. far ones (|R_i| up to 11), 2 not inversion-symmetric; all fold onto the boxes used",
+                            NKFFT="the quick ones + (4,2,2) (3,2,2) (1,5,1) (1,3,2) (2,2,1) and prime / anisotropic ones (5,1,1) (1,7,1) (1,1,5) (3,5,1) (5,1,2) (2,2,3) (6,1,1) (4,3,1) (3,3,2) (2,5,2) (4,4,2) (3,3,3) (1,6,2) (5,5,1) "
+                            "(7,2,1) (4,2,4) (2,7,1) (1,3,5) (1,2,5), up to 32 k-points", dK="6 concrete shifts",
+                            der="0..3 with concrete lattice (every derivative order on 9 prime / anisotropic boxes, up to 2 R-sets each), matrices with one and two Cartesian indices with der 1..3 / 0..2 (array rank up to 9), "
+                            "symbolic lattice and centres with der 1 (nb<=3), 2 (nb=2), 3 (nb=1)", data="symbolic complex X(R), |X|<=1", hermitian_flag="both", fftlib="fftw(stub) numpy(stub) slow k-list",
+                            Data_K_R="HH_K and Xbar('Ham',1..3) on 10 systems, nb up to 4"))
 EXPLANATION = ("The real FFT_R_to_k / Rvectors / Data_K_R code runs on symbolic complex R-space matrices X(R) (and, in the symbolic-lattice cases, symbolic lattice vectors and "
                "Wannier centres); numpy.fft and pyfftw are replaced by the DFT definition. Every output entry is a polynomial in the atoms with double coefficients (twiddles, phases); "
                "z3 (QF_LRA over the monomials) decides that each back end agrees with the explicit sum over R written in the harness to 1e-9 for all |atoms|<=1, and that the outputs are Hermitian to the same tolerance.")
@@ -29,7 +33,7 @@ ASSUMPTIONS = ["|X(R)_ab| components, lattice entries and reduced centres in [-1
                "hermitian-data cases: R-set closed under inversion and X(-R)=X(R)^dagger (the statement's 'Hermitian real-space model')"]
 OUTSIDE = ["internals of numpy.fft / FFTW (replaced by the DFT definition; the stub is validated against both libraries on random input in the 'stub validation' case and in every replay)",
            "symbolic k-shift dK / k-points (phases are concrete doubles for enumerated shifts)", "IEEE rounding inside the transforms (real-number semantics, agreement claimed to 1e-9)",
-           "R-sets, FFT boxes and nb beyond the enumerated ones", "UU_K other than identity in Data_K_R.Xbar (the eigenvector rotation is C04's subject)"]
+           "R-sets, FFT boxes (more than 32 k-points), nb > 4, derivative order > 3 or array rank > 9 beyond the enumerated ones", "UU_K other than identity in Data_K_R.Xbar (the eigenvector rotation is C04's subject)"]
 STUBS = ["np.fft.ifftn/fftn -> symx.npproxy.DFT (DFT by definition, twiddles = numpy's exp doubles)",
          "pyfftw (name shadowed in fourier/fft.py): FFTW(fft_in, fft_out, axes, flags, direction)(inp) checks inp.shape == planned shape (ValueError otherwise), writes the DFT over `axes` "
          "(FFTW_BACKWARD normalised by 1/N as with normalise_idft=True) into the plan's own output array and returns that same array on every call; empty_aligned -> zero object array",
@@ -91,9 +95,16 @@ RSETS = {
     "z9": [(0, 0, k) for k in range(-4, 5)],
     "star7": [(0, 0, 0), (1, 0, 0), (-1, 0, 0), (0, 2, 0), (0, -2, 0), (1, 1, -3), (-1, -1, 3)],
     "asym6": [(0, 0, 0), (1, 0, 0), (2, 1, 0), (-3, 0, 1), (0, -2, -1), (5, 0, 0)],   # not closed under inversion (generic data only)
+    # thorough tier only
+    "x13": [(i, 0, 0) for i in range(-6, 7)],
+    "far11": [(0, 0, 0), (7, 0, 0), (-7, 0, 0), (0, -5, 3), (0, 5, -3), (4, 4, -4), (-4, -4, 4), (9, -8, 0), (-9, 8, 0), (1, 0, 11), (-1, 0, -11)],
+    "yz21": [(0, j, k) for j in (-3, -2, -1, 0, 1, 2, 3) for k in (-1, 0, 1)],
+    "ball33": [(i, j, k) for i in range(-2, 3) for j in range(-2, 3) for k in range(-2, 3) if i * i + j * j + k * k <= 4],
+    "cube125": [(i, j, k) for i in range(-2, 3) for j in range(-2, 3) for k in range(-2, 3)],
+    "asym9": [(0, 0, 0), (6, -1, 0), (-4, 0, 2), (0, 7, -3), (1, 1, 1), (-2, -5, 0), (3, 0, -8), (0, 0, 5), (-10, 2, 1)],   # not closed under inversion
 }
 LATTICE = np.array([[1.0, 0.125, 0.0], [-0.5, 0.875, 0.25], [0.0625, -0.1875, 1.5]])
-CENTRES = np.array([[0.0, 0.0, 0.0], [0.25, 0.5, 0.125], [0.6, 0.1, 0.3]])
+CENTRES = np.array([[0.0, 0.0, 0.0], [0.25, 0.5, 0.125], [0.6, 0.1, 0.3], [-0.35, 0.8, 0.45]])
 DKS = [(0.25, 0.0, 0.125), (0.1, 0.37, 0.05), (0.0, 0.0, 0.0), (1 / 3, 0.5, 0.2), (0.4999, 0.77, 0.013), (0.05, 0.05, 0.95)]
 
 
@@ -264,7 +275,7 @@ def cases(tier, seed):
     out = [Case("stub validation", case_stub_validation, dict(seed=seed))]
     def add(kind, **kw):
         name = kind + " " + " ".join(f"{k}={v}" for k, v in kw.items())
-        out.append(Case(name, case_backends if kind == "backends" else case_dataK, kw, timeout=1500))
+        out.append(Case(name, case_backends if kind == "backends" else case_dataK, kw, timeout=3000))
     # der = 0: many boxes / shifts, both data kinds
     combos0 = [("cube27", (2, 2, 2), 0), ("xz15", (2, 1, 2), 1), ("x7", (3, 1, 1), 3), ("xy13", (2, 3, 1), 1), ("x7", (4, 1, 1), 0), ("z9", (1, 1, 4), 3),
                ("star7", (2, 2, 2), 1), ("cube27", (1, 1, 1), 0), ("x7", (1, 1, 1), 2), ("asym6", (2, 1, 1), 1), ("asym6", (3, 2, 1), 0)]
@@ -300,7 +311,59 @@ def cases(tier, seed):
     add("dataK", rset="x7", NK=(3, 1, 1), dK=DKS[3], nb=2, dermax=2, symlat=False)
     add("dataK", rset="star7", NK=(2, 2, 2), dK=DKS[1], nb=1, dermax=1, symlat=False)
     add("dataK", rset="x7", NK=(2, 1, 1), dK=DKS[0], nb=2, dermax=1, symlat=True)
+    if not q:
+        _deep_cases(add)
     return out
+
+
+def _units(rset, NK, nb, der, trailing=()):
+    return int(np.prod(NK)) * nb * nb * 3 ** (der + len(trailing)) * len(RSETS[rset])
+
+
+def _deep_cases(add):
+    """thorough tier: prime / anisotropic FFT boxes, far and many R-vectors, up to 4 bands, rank up to 9 (derivative order + Cartesian indices of the matrix)"""
+    boxes = [(5, 1, 1), (1, 7, 1), (1, 1, 5), (3, 5, 1), (5, 1, 2), (2, 2, 3), (6, 1, 1), (4, 3, 1), (3, 3, 2), (2, 5, 2), (4, 4, 2), (3, 3, 3), (1, 6, 2), (5, 5, 1), (7, 2, 1), (4, 2, 4), (2, 7, 1), (1, 3, 5)]
+    rsets = ["far11", "ball33", "x13", "yz21", "cube125", "asym9"]
+    n = 0
+    for ib, NK in enumerate(boxes):                                    # der = 0, every box with three R-sets, 1..4 bands, both data kinds
+        for j in range(3):
+            rset = rsets[(ib + 2 * j) % len(rsets)]
+            nb = 1 + (ib + j) % 4
+            if _units(rset, NK, nb, 0) > 80000:
+                nb = 2
+            add("backends", rset=rset, NK=NK, dK=DKS[n % len(DKS)], nb=nb, der=0, herm_data=rset != "asym9", symlat=False)
+            n += 1
+    for der in (1, 2, 3):                                              # derivatives on prime / anisotropic boxes
+        for ib, NK in enumerate([(5, 1, 1), (2, 2, 3), (3, 1, 2), (1, 7, 1), (4, 3, 1), (3, 5, 1), (2, 2, 2), (6, 1, 1), (1, 2, 5)]):
+            for j in range(2):
+                rset = ["far11", "yz21", "ball33", "x13", "asym9"][(ib + der + 2 * j) % 5]
+                nb = 1 + (ib + j + der) % 3
+                while nb > 1 and _units(rset, NK, nb, der) > 60000:
+                    nb -= 1
+                if _units(rset, NK, nb, der) > 60000:
+                    continue
+                add("backends", rset=rset, NK=NK, dK=DKS[n % len(DKS)], nb=nb, der=der, herm_data=rset != "asym9", symlat=False)
+                n += 1
+    for trailing, ders in (((3,), (1, 2, 3)), ((3, 3), (0, 1, 2))):    # matrices with Cartesian indices (AA-, CCab-like): array rank up to 9
+        for der in ders:
+            for rset, NK, nb in [("x7", (3, 1, 1), 2), ("far11", (2, 1, 2), 1), ("asym6", (1, 5, 1), 1), ("xz15", (2, 1, 2), 2 if der + len(trailing) < 4 else 1)]:
+                add("backends", rset=rset, NK=NK, dK=DKS[n % len(DKS)], nb=nb, der=der, herm_data=not rset.startswith("asym"), symlat=False, trailing=trailing)
+                n += 1
+    # symbolic lattice and centres
+    add("backends", rset="far11", NK=(5, 1, 1), dK=DKS[1], nb=3, der=1, herm_data=True, symlat=True)
+    add("backends", rset="yz21", NK=(1, 3, 2), dK=DKS[4], nb=2, der=1, herm_data=True, symlat=True)
+    add("backends", rset="asym9", NK=(2, 2, 1), dK=DKS[5], nb=2, der=1, herm_data=False, symlat=True)
+    add("backends", rset="x7", NK=(3, 1, 1), dK=DKS[3], nb=2, der=2, herm_data=True, symlat=True)
+    add("backends", rset="star7", NK=(1, 2, 1), dK=DKS[1], nb=2, der=2, herm_data=True, symlat=True)
+    add("backends", rset="x7", NK=(2, 1, 1), dK=DKS[4], nb=1, der=3, herm_data=True, symlat=True)
+    add("backends", rset="x7", NK=(2, 1, 1), dK=DKS[0], nb=1, der=1, herm_data=True, symlat=True, trailing=(3,))
+    # Data_K_R layer
+    add("dataK", rset="far11", NK=(5, 1, 2), dK=DKS[4], nb=2, dermax=3, symlat=False)
+    add("dataK", rset="ball33", NK=(2, 2, 3), dK=DKS[5], nb=3, dermax=2, symlat=False)
+    add("dataK", rset="x13", NK=(7, 1, 1), dK=DKS[1], nb=4, dermax=2, symlat=False)
+    add("dataK", rset="yz21", NK=(1, 3, 5), dK=DKS[3], nb=2, dermax=3, symlat=False)
+    add("dataK", rset="cube125", NK=(3, 3, 2), dK=DKS[0], nb=2, dermax=1, symlat=False)
+    add("dataK", rset="x7", NK=(3, 1, 1), dK=DKS[3], nb=2, dermax=2, symlat=True)
 
 
 # ------------------------------------------------------------------------------------------------------------
